@@ -26,7 +26,7 @@ EXPLANATION = (
     'R1 the state files a follow-up `meson setup` reads from meson-private (derived from the readers reachable from '
     'Environment.__init__ / MesonApp.__init__ / MesonApp._generate: coredata.dat, cmd_line.txt) are never opened for writing '
     'under their own name anywhere in mesonbuild/; every os.replace/os.rename onto them takes a different sibling name whose '
-    'writer has been closed on every path; they are never the *source* of a rename/move and are unlinked only inside an exception '
+    'writer has been closed on every path and overwrites a leftover temporary (mode w, never x/a, unless removed first); they are never the *source* of a rename/move and are unlinked only inside an exception '
     'handler after which every path re-raises (file names folded symbolically through locals, helpers and callers); '
     'R2 pickle_load converts what a truncated pickle raises (UnpicklingError, EOFError) into MesonException, '
     'Environment.__init__ answers FileNotFoundError / MesonException from coredata.load by regenerating (replaying cmd_line.txt '
@@ -92,7 +92,9 @@ def _sinks(fn: ast.AST, parser_names: T.Set[str]) -> T.List[Sink]:
         elif cn == 'os.open':
             flags = n.args[1] if len(n.args) > 1 else None
             w = flags is not None and any(c.split('.')[-1] in ('O_WRONLY', 'O_RDWR', 'O_CREAT', 'O_TRUNC', 'O_APPEND') for c in chains_in(flags))
-            out.append(Sink('write' if w else 'read', n, n.args[0] if n.args else None, None, 'w' if w else 'r'))
+            excl = flags is not None and any(c.split('.')[-1] == 'O_EXCL' for c in chains_in(flags))
+            trunc = flags is not None and any(c.split('.')[-1] == 'O_TRUNC' for c in chains_in(flags))
+            out.append(Sink('write' if w else 'read', n, n.args[0] if n.args else None, None, ('x' if excl else 'w' if trunc else 'r+') if w else 'r'))
         elif cn in COPY_FUNCS:
             if len(n.args) >= 2:
                 out.append(Sink('copy', n, n.args[1], n.args[0], None))
@@ -347,6 +349,7 @@ class Scan:
                     continue
                 for w in mine:
                     problems += self._closed_before(ref, cfg, w, pn[0])
+                    self._temp_mode(ref, cfg, w, st, base, env, sinks)
             if problems:
                 self._rec('publish-bad', ref, s.call, base, '; '.join(problems))
             else:
@@ -377,6 +380,35 @@ class Scan:
             return
         self._recorded.add(k)
         self.recs.append(Rec(kind, ref, node, base, text))
+
+    def _temp_mode(self, ref: FuncRef, cfg: CFG, w: Sink, st: Term, base: str, env: T.Dict[str, Terms], sinks: T.List[Sink]) -> None:
+        """The temporary may be a leftover of a killed run: its writer must replace it ('w'), not require its absence ('x'),
+        not extend it ('a', 'r+') - unless the leftover is removed on every path to the open."""
+        where = f'{ref.mod.rel}:{ref.qn}'
+        if w.mode is None:
+            self.undecided.append(f'{where}: `{short(w.call)}` opens the temporary of {base} with a non-constant mode')
+            return
+        if 'w' in w.mode:
+            self._rec('temp-mode-ok', ref, w.call, base, f'opens the temporary {P.show(st)} with mode {w.mode!r}: a leftover of a killed run is overwritten')
+            return
+        at = cfg.node_containing(w.call)
+        removes = [n for r in sinks if r.kind == 'remove' and r.path is not None and self.ps.resolve(ref, r.path, env) == frozenset([st])
+                   for n in cfg.node_containing(r.call)]
+
+        def edge_ok(a: Node, b: Node, lab: T.Any) -> bool:
+            # `if os.path.exists(tmp):` false edge: there is no leftover
+            if a.kind == 'test' and lab is False and isinstance(a.ast.test, ast.Call) and call_name(a.ast.test) in ('os.path.exists', 'os.path.isfile', 'os.path.lexists') \
+                    and a.ast.test.args and self.ps.resolve(ref, a.ast.test.args[0], env) == frozenset([st]):   # type: ignore[union-attr]
+                return False
+            return True
+        reach = cfg.reachable([cfg.entry], avoid=removes, edge_ok=edge_ok)
+        if removes and at and not any(n.id in reach for n in at):
+            self._rec('temp-mode-ok', ref, w.call, base, f'opens the temporary {P.show(st)} with mode {w.mode!r} after removing a leftover on every path')
+            return
+        effect = 'fails with FileExistsError' if 'x' in w.mode else ('appends to the leftover, which is then published' if 'a' in w.mode else 'does not create/replace it')
+        self._rec('temp-mode-bad', ref, w.call, base,
+                  f'opens the temporary {P.show(st)} with mode {w.mode!r}: when a killed run left that file behind this {effect}, '
+                  f'so every later write of {base} is wrong or impossible until the leftover is deleted by hand (open it with \'w\', or remove it first)')
 
     def _closed_before(self, ref: FuncRef, cfg: CFG, w: Sink, pub: Node) -> T.List[str]:
         """Every path from the open of the temporary to the rename passes the close of the file."""
@@ -472,6 +504,13 @@ def good(build_dir, text):
         f.write(text)
     os.replace(tmp, filename)
 
+def exclusive_temp(build_dir, text):
+    filename = _name(build_dir)
+    tmp = filename + '~'
+    with open(tmp, 'x') as f:
+        f.write(text)
+    os.replace(tmp, filename)
+
 def backup_by_rename(build_dir):
     filename = _name(build_dir)
     os.rename(filename, filename + '.prev')
@@ -495,6 +534,7 @@ def _self_example(ctx: RuleCtx) -> None:
     sc.run()
     got = sorted((r.kind, r.ref.qn) for r in sc.recs)
     want = sorted([('inplace', 'inplace'), ('inplace', '_emit'), ('publish-bad', 'early'), ('publish-ok', 'good'),
+                   ('temp-mode-ok', 'good'), ('temp-mode-ok', 'early'), ('publish-ok', 'exclusive_temp'), ('temp-mode-bad', 'exclusive_temp'),
                    ('moved-away', 'backup_by_rename'), ('remove-bad', 'unlink_first'), ('remove-ok', 'rollback')])
     if got != want or sc.undecided:
         raise AnalysisError(f'C09.R1 built-in example not classified as expected: {got} {sc.undecided}')
@@ -533,7 +573,10 @@ def r1(ctx: RuleCtx) -> None:
         if r.kind == 'remove-ok':
             ctx.ok(f'{where}: `{short(r.node)}` {r.text} (the directory becomes a partial build, see R3)')
             continue
-        if r.kind in ('remove-bad', 'moved-away'):
+        if r.kind == 'temp-mode-ok':
+            ctx.ok(f'{where}: `{short(r.node)}` {r.text}')
+            continue
+        if r.kind in ('remove-bad', 'moved-away', 'temp-mode-bad'):
             ctx.violation(r.ref.mod, r.ref.qn, r.node, f'{r.base} is recovery-critical but `{short(r.node)}` {r.text}', r.node)
             continue
         per[r.base] += 1
